@@ -280,7 +280,7 @@ pub fn engine_sched(cases: Vec<Value>, out: &mut NdjsonOut) {
             match hub.wait_arrival(id, t_arrive) {
                 Arrival::At(name, _) => {
                     inflight.remove(&id);
-                    if name == p {
+                    if name == p || p == "*" {
                         realised += 1;
                         steps.push(json!([a, p, "ok"]));
                     } else {
@@ -781,5 +781,84 @@ pub fn engine_overtake(rt: &tokio::runtime::Runtime, cases: Vec<Value>, out: &mu
         let summary = log_summary(&data);
         out.write(&json!({"id": case["id"], "summary": summary, "trace": trace, "overtaken": overtaken}));
         let _ = std::fs::remove_dir_all(&root);
+    }
+}
+
+// ---------------------------------------------------------------------------------------------
+// trans: one implementation test per transition of the Threads state graph.  The path is run
+// on a fresh store; then every operation of the alphabet is executed in that state: read-only
+// predictions in place (the log must not move), state-changing ones on a copy that is reopened
+// (so they also run on a restarted authority).
+
+fn exec_observed(env: &StoreEnv, op: &Value) -> Value {
+    let before = observe_log(&env.data);
+    let r = env.exec(op);
+    let after = observe_log(&env.data);
+    let delta = log_delta(&before, &after);
+    json!({"ok": r["ok"], "ret": r["ret"], "log": delta})
+}
+
+fn normalize_result(env: &StoreEnv, r: Value) -> Value {
+    let norm = env.normalizer();
+    let mut r = r;
+    let n = norm.norm(&r["ret"]);
+    r["ret"] = n;
+    let nf = norm.norm(&r["log"]["new_frames"]);
+    r["log"]["new_frames"] = nf;
+    r
+}
+
+pub fn engine_trans(cases: Vec<Value>, out: &mut NdjsonOut) {
+    let hub = hub();
+    for case in cases {
+        hub.reset();
+        let env = StoreEnv::fresh("trans");
+        let path = case.get("path").and_then(|o| o.as_array()).cloned().unwrap_or_default();
+        let mut path_r = Vec::new();
+        for op in &path {
+            let r = exec_observed(&env, op);
+            path_r.push(normalize_result(&env, r));
+        }
+        let trans = case.get("trans").and_then(|o| o.as_array()).cloned().unwrap_or_default();
+        let mut trans_r = Vec::new();
+        for tr in &trans {
+            let op = &tr["op"];
+            let mutating = get_bool(tr, "mut").unwrap_or(false);
+            if mutating {
+                let copy = env.root.join(format!("copy-{}", trans_r.len()));
+                let _ = util::copy_dir(&env.data, &copy.join("data"));
+                let _ = util::copy_dir(&env.ws, &copy.join("ws"));
+                let ids = env.ids.lock().unwrap().clone();
+                let env2 = StoreEnv::reopen_at(copy.clone(), ids);
+                let r = exec_observed(&env2, op);
+                let mut r = normalize_result(&env2, r);
+                // follow-up observations on the same copy (artifact read-back, repeated call, ...)
+                if let Some(post) = tr.get("post").and_then(|p| p.as_array()) {
+                    let mut pr = Vec::new();
+                    for pop in post {
+                        let x = exec_observed(&env2, pop);
+                        pr.push(normalize_result(&env2, x));
+                    }
+                    r["post"] = json!(pr);
+                }
+                trans_r.push(r);
+                drop(env2);
+                let _ = std::fs::remove_dir_all(&copy);
+            } else {
+                let r = exec_observed(&env, op);
+                let mut r = normalize_result(&env, r);
+                if let Some(post) = tr.get("post").and_then(|p| p.as_array()) {
+                    let mut pr = Vec::new();
+                    for pop in post {
+                        let x = exec_observed(&env, pop);
+                        pr.push(normalize_result(&env, x));
+                    }
+                    r["post"] = json!(pr);
+                }
+                trans_r.push(r);
+            }
+        }
+        out.write(&json!({"id": case["id"], "path": path_r, "trans": trans_r}));
+        env.cleanup();
     }
 }
